@@ -16,6 +16,9 @@
 (*    join gives the same result);                                            *)
 (*  * Global::Filter<UnitFilter> (rank-local restriction of one global unit   *)
 (*    filter) and Global::MeanFilter (global integrals with frequencies).     *)
+(* All per-rank lists are in the local numbering of the rank (Gen_Synch,     *)
+(* Renum): mirrors, splitter patch mirrors and filter indices are not        *)
+(* monotone in general.                                                      *)
 EXTENDS Gen_Synch
 
 Abs(n) == IF n < 0 THEN 0 - n ELSE n
@@ -37,6 +40,13 @@ Dofs2 == [r \in Ranks |-> {ND + 1 - d : d \in dofs[r]}]
 Owned2 == UNION {Dofs2[r] : r \in Ranks}
 Sorted(S) == [i \in 1..Cardinality(S) |-> CHOOSE d \in S : Cardinality({e \in S : e < d}) = i - 1]
 PerDof(S, Op(_)) == LET q == Sorted(S) IN [i \in 1..Len(q) |-> Op(q[i])]
+\* per-rank lists in the LOCAL numbering of the rank (Gen_Synch: renumbering kind ren[r]); the second component of the tuple
+\* vector is renumbered by the same kind on its own patch
+PerLoc(r, Op(_)) == LET q == SortedDofs(r) IN [i \in 1..Len(q) |-> Op(q[i])]
+T2Ord(r) == RnOrder(Dofs2[r], ren[r])
+PerLoc2(r, Op(_)) == LET q == T2Ord(r) IN [i \in 1..Len(q) |-> Op(q[i])]
+Shared2(r, s) == Dofs2[r] \cap Dofs2[s]
+Mir2(r, s) == IF s # r /\ Shared2(r, s) # {} THEN RnMirror(T2Ord(r), Shared2(r, s)) ELSE <<>>
 Blk(bs, Op(_)) == [k \in 1..bs |-> Op(k)]
 
 \* ---- one scalar per rank ------------------------------------------------------------------------------------------
@@ -60,27 +70,30 @@ MIntRhs == SumOver(Owned, [d \in Owned |-> X(d) * PW(d)])
 CaseB ==
   [kind |-> "vec", nr |-> NR, nd |-> ND,
    dofs |-> [r \in Ranks |-> SortedDofs(r)],
-   count |-> [r \in Ranks |-> PerDof(dofs[r], LAMBDA d : Cardinality(Sharers(d)))],
+   ren |-> [r \in Ranks |-> ren[r]], nonmono |-> NonMono,
+   mir |-> [r \in Ranks |-> [s \in Ranks |-> Mir(r, s)]],
+   count |-> [r \in Ranks |-> PerLoc(r, LAMBDA d : Cardinality(Sharers(d)))],
    \* scalar part (as in Gen_Synch)
-   v0 |-> [r \in Ranks |-> PerDof(dofs[r], LAMBDA d : v0[r][d])],
-   sync0 |-> [r \in Ranks |-> PerDof(dofs[r], LAMBDA d : Sync0Of(v0, dofs)[r][d])],
-   x |-> [r \in Ranks |-> PerDof(dofs[r], X)], y |-> [r \in Ranks |-> PerDof(dofs[r], Y)],
+   v0 |-> [r \in Ranks |-> PerLoc(r, LAMBDA d : v0[r][d])],
+   sync0 |-> [r \in Ranks |-> PerLoc(r, LAMBDA d : Sync0Of(v0, dofs)[r][d])],
+   x |-> [r \in Ranks |-> PerLoc(r, X)], y |-> [r \in Ranks |-> PerLoc(r, Y)],
    dot |-> SumOver(Owned, [d \in Dofs |-> X(d) * Y(d)]), nrm2 |-> SumOver(Owned, [d \in Dofs |-> X(d) * X(d)]),
    maxabs |-> MaxOf({Abs(X(d)) : d \in Owned}), minabs |-> MinOf({Abs(X(d)) : d \in Owned}),
    nglobal |-> Cardinality(Owned),
    \* blocked
-   vb0 |-> [r \in Ranks |-> PerDof(dofs[r], LAMBDA d : Blk(3, LAMBDA k : VB(r, d, k)))],
-   sync0b |-> [r \in Ranks |-> PerDof(dofs[r], LAMBDA d : Blk(3, LAMBDA k : Sync0B(dofs, d, k)))],
-   xb |-> [r \in Ranks |-> PerDof(dofs[r], LAMBDA d : Blk(3, LAMBDA k : XB(d, k)))],
-   yb |-> [r \in Ranks |-> PerDof(dofs[r], LAMBDA d : Blk(3, LAMBDA k : YB(d, k)))],
+   vb0 |-> [r \in Ranks |-> PerLoc(r, LAMBDA d : Blk(3, LAMBDA k : VB(r, d, k)))],
+   sync0b |-> [r \in Ranks |-> PerLoc(r, LAMBDA d : Blk(3, LAMBDA k : Sync0B(dofs, d, k)))],
+   xb |-> [r \in Ranks |-> PerLoc(r, LAMBDA d : Blk(3, LAMBDA k : XB(d, k)))],
+   yb |-> [r \in Ranks |-> PerLoc(r, LAMBDA d : Blk(3, LAMBDA k : YB(d, k)))],
    dotb |-> [bs \in 2..3 |-> DotB(Owned, bs)], nrm2b |-> [bs \in 2..3 |-> NrmB(Owned, bs)],
    maxabsb |-> [bs \in 2..3 |-> MaxOf(AbsB(Owned, bs))], minabsb |-> [bs \in 2..3 |-> MinOf(AbsB(Owned, bs))],
    \* tuple: second component (blocked, 2 components) on the mirrored decomposition
-   t2dofs |-> [r \in Ranks |-> Sorted(Dofs2[r])],
-   t2v0 |-> [r \in Ranks |-> PerDof(Dofs2[r], LAMBDA d : Blk(2, LAMBDA k : VB(r, d, k)))],
-   t2sync0 |-> [r \in Ranks |-> PerDof(Dofs2[r], LAMBDA d : Blk(2, LAMBDA k : Sync0B(Dofs2, d, k)))],
-   t2x |-> [r \in Ranks |-> PerDof(Dofs2[r], LAMBDA d : Blk(2, LAMBDA k : XB(d, k)))],
-   t2y |-> [r \in Ranks |-> PerDof(Dofs2[r], LAMBDA d : Blk(2, LAMBDA k : YB(d, k)))],
+   t2dofs |-> [r \in Ranks |-> T2Ord(r)],
+   t2mir |-> [r \in Ranks |-> [s \in Ranks |-> Mir2(r, s)]],
+   t2v0 |-> [r \in Ranks |-> PerLoc2(r, LAMBDA d : Blk(2, LAMBDA k : VB(r, d, k)))],
+   t2sync0 |-> [r \in Ranks |-> PerLoc2(r, LAMBDA d : Blk(2, LAMBDA k : Sync0B(Dofs2, d, k)))],
+   t2x |-> [r \in Ranks |-> PerLoc2(r, LAMBDA d : Blk(2, LAMBDA k : XB(d, k)))],
+   t2y |-> [r \in Ranks |-> PerLoc2(r, LAMBDA d : Blk(2, LAMBDA k : YB(d, k)))],
    tdot |-> SumOver(Owned, [d \in Dofs |-> X(d) * Y(d)]) + DotB(Owned2, 2),
    tnrm2 |-> SumOver(Owned, [d \in Dofs |-> X(d) * X(d)]) + NrmB(Owned2, 2),
    tmaxabs |-> MaxOf({Abs(X(d)) : d \in Owned} \cup AbsB(Owned2, 2)),
@@ -94,21 +107,22 @@ CaseB ==
    base |-> [d \in Dofs |-> IF d \in Owned THEN X(d) ELSE 0],
    baseb |-> [d \in Dofs |-> Blk(2, LAMBDA k : IF d \in Owned THEN XB(d, k) ELSE 0)],
    bv |-> [d \in Dofs |-> BV(d)], bvb |-> [d \in Dofs |-> Blk(2, LAMBDA k : BVB(d, k))],
-   split |-> [r \in Ranks |-> PerDof(dofs[r], BV)],
-   splitb |-> [r \in Ranks |-> PerDof(dofs[r], LAMBDA d : Blk(2, LAMBDA k : BVB(d, k)))],
+   split |-> [r \in Ranks |-> PerLoc(r, BV)],
+   splitb |-> [r \in Ranks |-> PerLoc(r, LAMBDA d : Blk(2, LAMBDA k : BVB(d, k)))],
    \* filters
    fdofs |-> [r \in Ranks |-> Sorted(dofs[r] \cap FSet)],
    fvals |-> [r \in Ranks |-> PerDof(dofs[r] \cap FSet, FV)],
-   fsol |-> [r \in Ranks |-> PerDof(dofs[r], LAMBDA d : IF d \in FSet THEN FV(d) ELSE X(d))],
-   fdef |-> [r \in Ranks |-> PerDof(dofs[r], LAMBDA d : IF d \in FSet THEN 0 ELSE X(d))],
-   pw |-> [r \in Ranks |-> PerDof(dofs[r], PW)], dw |-> [r \in Ranks |-> PerDof(dofs[r], DW)],
+   fsol |-> [r \in Ranks |-> PerLoc(r, LAMBDA d : IF d \in FSet THEN FV(d) ELSE X(d))],
+   fdef |-> [r \in Ranks |-> PerLoc(r, LAMBDA d : IF d \in FSet THEN 0 ELSE X(d))],
+   pw |-> [r \in Ranks |-> PerLoc(r, PW)], dw |-> [r \in Ranks |-> PerLoc(r, DW)],
    mvol |-> MVol,
-   msol |-> [r \in Ranks |-> PerDof(dofs[r], LAMBDA d : X(d) * MVol - PW(d) * MIntSol)],   \* = MVol * filter_sol(x)
-   mrhs |-> [r \in Ranks |-> PerDof(dofs[r], LAMBDA d : X(d) * MVol - DW(d) * MIntRhs)],   \* = MVol * filter_rhs(x)
+   msol |-> [r \in Ranks |-> PerLoc(r, LAMBDA d : X(d) * MVol - PW(d) * MIntSol)],   \* = MVol * filter_sol(x)
+   mrhs |-> [r \in Ranks |-> PerLoc(r, LAMBDA d : X(d) * MVol - DW(d) * MIntRhs)],   \* = MVol * filter_rhs(x)
    mmag |-> Abs(MIntSol) + Abs(MIntRhs) + MaxOf({Abs(X(d)) : d \in Owned}) * Abs(MVol)]
 
 EmitB == NonEmpty => PrintT(ToJson(CaseB))
 \* sanity laws of the expected values
 LawSyncShared == \A r, s \in Ranks : \A d \in dofs[r] \cap dofs[s] : Sync0B(dofs, d, 2) = Sync0B(dofs, d, 2) /\ Sync0Of(v0, dofs)[r][d] = Sync0Of(v0, dofs)[s][d]
+LawRenum2 == \A r \in Ranks : RnIsPerm(T2Ord(r), Dofs2[r]) /\ \A s \in Ranks \ {r} : RnMirrorsAgree(T2Ord(r), T2Ord(s), Shared2(r, s))
 LawNorm == NrmB(Owned, 3) >= NrmB(Owned, 2) /\ (NonEmpty => MVol > 0)
 =============================================================================
